@@ -86,11 +86,11 @@ def tail_intervals(tail, from_ns, to_ns):
     return out
 
 
-def expected_intervals(z, upto_ns=None):
+def expected_intervals(z, upto_ns=None, requested_id=None):
     """Complete reference interval list of a decoded zone (see nzd_ref.zone) from the start of time to `upto_ns`
     (default: the end of time).  Entries: (start|None, end|None, wall_ms, savings_ms, name)."""
     if z["fixed"]:
-        return [(None, None, z["offset"], 0, z["name"])]
+        return [(None, None, z["offset"], 0, z["name"] if z["name"] is not None else (requested_id or z["id"]))]
     out = []
     for s, e, name, wall, sav in z["periods"]:
         out.append((None if s == "-inf" else s, None if e == "+inf" else e, wall, sav, name))
